@@ -106,10 +106,22 @@ static long vf_fail_at;         /* request number that is refused (0 = none) */
 static long vf_nfree;           /* non-NULL releases seen */
 static long vf_nrealloc;        /* realloc calls seen */
 
+#ifdef VF_NATIVE
+static char *vf_zero_base[64]; static char *vf_zero_ptr[64]; static int vf_nzero;
+static void *vf_zero_unmap(void *p) { int i; for (i = 0; i < vf_nzero; i++) if (p != 0 && vf_zero_ptr[i] == (char *)p) { vf_zero_ptr[i] = 0; return vf_zero_base[i]; } return p; }
+#endif
 static void *vf_split_alloc(void *old, size_t n)
 {
 #ifdef VF_NATIVE
-    void *q = old ? realloc(old, n) : malloc(n);
+    void *q;
+    if (n == 0 && old == 0) {
+        /* ASan's malloc(0) is one byte long, which would hide accesses to a zero-size block: hand out the END of a block instead */
+        char *base = (char *)malloc(16); VF_NONNULL(base);
+        if (vf_nzero < 64) { vf_zero_base[vf_nzero] = base; vf_zero_ptr[vf_nzero] = base + 16; vf_nzero++; }
+        return base + 16;
+    }
+    old = vf_zero_unmap(old);
+    q = old ? realloc(old, n) : malloc(n);
     VF_NONNULL(q);
     return q;
 #else
@@ -165,6 +177,9 @@ static void vf_free(void *p)
     if (p == 0) return;
     vf_nfree++;
     vf_live--;
+#ifdef VF_NATIVE
+    p = vf_zero_unmap(p);
+#endif
     free(p);
 }
 static void *vf_realloc(void *p, size_t n)
